@@ -1,9 +1,124 @@
-/- WS.Driver.OpsApp — op group App (see AGENTS_GUIDE.md). Return `none` for ops not handled here. -/
+/- WS.Driver.OpsApp — op group App (C13–C16): the WebSocketApp model and the trace specs.
+
+   m-app <cfg> <plan> <runs> <sched>           → trace of Model.App.runMany
+     cfg   = mask,iv,to,payload,reconnect,ssl,horizon,fuel   (mask: bit i = callback i set; to: N | int;
+             payload hex or -; times in ticks of 1/1024 s)
+     plan  = 8 strings over {o,r,c,k} separated by `/` (`-` = empty), one per callback in Cb.all order
+     runs  = runs separated by `!`; a run = dial outcomes separated by `/` (`-` = none):
+             R | J<status> | E<ev>+<ev>+…   with  ev = <dt>.<burst>.<kind><hex>
+             kinds: t/T text (whole/fragmented), b/B binary, p ping, q pong, c close, e eof, r reset,
+                    x protoError, y payloadError, h partial
+     sched = string of 0/1 (`-` = empty): order at simultaneous wakes, 1 = ping thread first
+   trace = events joined by `;`, each `<tick>:<event>`.
+-/
 import WS.Driver.Util
+import WS.Model.App
 namespace WS.Driver.App
-open WS WS.Driver
+open WS WS.Driver WS.Model.App
+
+/-! ### rendering -/
+
+def exnOut : AExn → String
+  | .closed => "CLOSED" | .proto => "PROTO" | .payload => "PAYLOAD" | .timeout => "TIMEOUT"
+  | .transport => "TRANSPORT" | .badstatus n => s!"BADSTATUS({n})" | .wsgeneric => "WSGENERIC"
+  | .attrError => "INTERNAL(AttributeError)" | .user cb k => s!"USER({cb.name}#{k})" | .ki => "KI"
+  | .frame b => s!"FRAME({bytesOut b})"
+
+def argOut : Arg → String
+  | .none => "N" | .int n => s!"i{n}" | .str b => "s" ++ bytesOut b | .bytes b => "b" ++ bytesOut b
+  | .bool b => if b then "T" else "F" | .exn e => "e" ++ exnOut e
+
+def evOut : Ev → String
+  | .cb c args => s!"cb:{c.name}:" ++ (if args.isEmpty then "-" else ",".intercalate (args.map argOut))
+  | .dial i => s!"dial:{i}" | .sleep d => s!"sleep:{d}" | .wrote op p => s!"wrote:{op}:{bytesOut p}"
+  | .sockClosed i => s!"sockClosed:{i}" | .sockDropped i => s!"sockDropped:{i}"
+  | .pingStart => "pingStart" | .pingStop => "pingStop"
+  | .returned b => s!"ret:{b2s b}" | .raisedOut e => s!"raised:{exnOut e}"
+  | .blocked => "blocked" | .outOfFuel => "outOfFuel"
+
+def traceOut (t : Trace) : String :=
+  if t.isEmpty then "-" else ";".intercalate (t.map fun (tm, e) => s!"{tm}:{evOut e}")
+
+/-! ### parsing -/
+
+def parseAct : Char → Option Act
+  | 'o' => some .ok | 'r' => some .raise | 'c' => some .close | 'k' => some .ki | _ => none
+
+def parseActs (s : String) : Option (List Act) :=
+  if s == "-" then some [] else s.toList.mapM parseAct
+
+def parsePlan (s : String) : Option (Cb → List Act) :=
+  match (s.splitOn "/").mapM parseActs with
+  | some l => if l.length == 8 then some (fun cb => l.getD cb.idx []) else none
+  | none => none
+
+def parseSrvEv (k : Char) (h : String) : Option SrvEv :=
+  let body : Option Bytes := if h.isEmpty then some [] else ofHex h
+  match k, body with
+  | 't', some b => some (.message Gen.opcodeText b false)
+  | 'T', some b => some (.message Gen.opcodeText b true)
+  | 'b', some b => some (.message Gen.opcodeBinary b false)
+  | 'B', some b => some (.message Gen.opcodeBinary b true)
+  | 'p', some b => some (.ping b) | 'q', some b => some (.pong b) | 'c', some b => some (.close b)
+  | 'e', some [] => some .eof | 'r', some [] => some .reset | 'x', some [] => some .protoError
+  | 'y', some [] => some .payloadError | 'h', some [] => some .part
+  | _, _ => none
+
+def parseTEv (s : String) : Option TEv :=
+  match s.splitOn "." with
+  | [dt, b, kh] =>
+    match dt.toNat?, kh.toList with
+    | some dt, k :: h =>
+      (parseSrvEv k (String.ofList h)).map fun ev => { dt := dt, burst := b == "1", ev := ev }
+    | _, _ => none
+  | _ => none
+
+def parseDial (s : String) : Option Dial :=
+  match s.toList with
+  | ['R'] => some .refused
+  | 'J' :: r => (String.ofList r).toNat?.map .rejected
+  | ['E'] => some (.established [])
+  | 'E' :: r => ((String.ofList r).splitOn "+").mapM parseTEv |>.map .established
+  | _ => none
+
+def parseRun (s : String) : Option (List Dial) :=
+  if s == "-" then some [] else (s.splitOn "/").mapM parseDial
+
+def parseRuns (s : String) : Option (List (List Dial)) := (s.splitOn "!").mapM parseRun
+
+def parseSched (s : String) : Option (List Bool) :=
+  if s == "-" then some [] else
+  s.toList.mapM fun ch => if ch == '1' then some true else if ch == '0' then some false else none
+
+def parseOptInt (s : String) : Option (Option Int) :=
+  if s == "N" then some none else s.toInt?.map some
+
+def parseCfg (s : String) (plan : Cb → List Act) : Option Cfg :=
+  match s.splitOn "," with
+  | [mask, iv, to, pl, rc, ssl, hz, fuel] =>
+    match mask.toNat?, iv.toInt?, parseOptInt to, parseBytes pl, rc.toNat?, hz.toNat?, fuel.toNat? with
+    | some mask, some iv, some to, some pl, some rc, some hz, some fuel =>
+      some { has := fun cb => (mask >>> cb.idx) % 2 == 1, plan := plan, iv := iv, to := to, payload := pl,
+             reconnect := rc, ssl := ssl == "1", horizon := hz, fuel := fuel }
+    | _, _, _, _, _, _, _ => none
+  | _ => none
 
 def ops : List String → Option String
+  | ["m-app", cfg, plan, runs, sched] =>
+    match parsePlan plan with
+    | none => some "bad-plan"
+    | some pl =>
+      match parseCfg cfg pl, parseRuns runs, parseSched sched with
+      | some c, some rs, some sc =>
+        let s := runMany c rs { sched := sc }
+        some (traceOut s.trace)
+      | none, _, _ => some "bad-cfg"
+      | _, none, _ => some "bad-runs"
+      | _, _, none => some "bad-sched"
+  | ["m-app-args", iv, to] =>
+    match iv.toInt?, parseOptInt to with
+    | some iv, some to => some (b2s (argsAccepted iv to))
+    | _, _ => some "bad-args"
   | _ => none
 
 end WS.Driver.App
